@@ -331,6 +331,10 @@ func replay(path string) {
 		fmt.Println("NOT REPRODUCED (the recorded violation does not occur on the current tree)")
 		os.Exit(0)
 	}
+	if str(rec, "engine") == "e3a" && str(rec, "configuration") != "" {
+		replayE3a(prop, rec)
+		return
+	}
 	f, ok := checks[prop]
 	if !ok {
 		fatalInfra("replay: unknown property %q", prop)
